@@ -90,6 +90,11 @@ func (fr *frame) get(key ssa.Value) value {
 		if r, ok := fr.i.globals[key]; ok {
 			return r
 		}
+		if key.Pkg != nil && ShouldSkipInit(key.Pkg.Pkg.Path()) && key.Name() != "init$guard" {
+			if initTouchedGlobals(key.Pkg)[key] && !zeroOKGlobals[key.String()] && fr.fn.Pkg != key.Pkg {
+				panic(unsupported{"read of global " + key.String() + " whose package initialisation is not interpreted"})
+			}
+		}
 		cell := zero(mustDeref(key.Type()))
 		fr.i.globals[key] = &cell
 		return &cell
@@ -129,6 +134,10 @@ func isEnginePanic(r any) bool {
 }
 
 type engineBug struct{ msg string }
+
+// fallthroughMarker is returned by an intrinsic that declines to handle this
+// call (e.g. all arguments concrete): the function body is interpreted instead.
+type fallthroughMarker struct{}
 
 // runDefers executes fr's deferred function calls in LIFO order.
 func (fr *frame) runDefers() {
@@ -440,8 +449,11 @@ func callSSA(i *interpreter, caller *frame, callpos token.Pos, fn *ssa.Function,
 			if i.mode&EnableTracing != 0 {
 				fmt.Fprintln(os.Stderr, "\t(external)")
 			}
-			i.W.noteStub(fn)
-			return ext(fr, args)
+			r := ext(fr, args)
+			if _, ft := r.(fallthroughMarker); !ft {
+				i.W.noteStub(fn)
+				return r
+			}
 		}
 		if fn.Blocks == nil {
 			panic(unsupported{"no code for function: " + fn.String()})
@@ -654,7 +666,15 @@ func (i *interpreter) ensureInit(pkg *ssa.Package) {
 		// package initialisation is not part of any thread's critical
 		// section: run it without yielding
 		i.S.noYield++
-		defer func() { i.S.noYield-- }()
+		defer func() {
+			i.S.noYield--
+			if r := recover(); r != nil {
+				if isEnginePanic(r) {
+					panic(r)
+				}
+				panic(engineBug{fmt.Sprintf("panic while initialising package %s: %v", pkg.Pkg.Path(), r)})
+			}
+		}()
 		call(i, nil, token.NoPos, f, nil)
 	}
 }
